@@ -124,7 +124,7 @@ fn scenarios(out: &mut impl Write) -> usize {
     n
 }
 
-fn patterns(out: &mut impl Write, seed: u64, count: usize) -> usize {
+fn patterns(out: &mut impl Write, seed: u64, count: usize, max_pieces: usize) -> usize {
     let mut rng = Rng::new(seed);
     let mut n = 0;
     let mut tries = 0;
@@ -185,6 +185,9 @@ fn patterns(out: &mut impl Write, seed: u64, count: usize) -> usize {
         if !legal_position(&c) {
             continue;
         }
+        if c.iter().filter(|&&x| x != 0).count() > max_pieces {
+            continue;
+        }
         let gold = rng.chance(0.5);
         write_root(out, &c, gold, 2 + rng.below(40), &[], 1, "pattern");
         n += 1;
@@ -232,7 +235,9 @@ fn main() {
     let mut out = std::io::BufWriter::new(std::fs::File::create(&args[4]).unwrap());
     let k = match args[1].as_str() {
         "scenarios" => if n == 1 { scenarios_quick(&mut out) } else { scenarios(&mut out) },
-        "patterns" => patterns(&mut out, seed, n),
+        "patterns" => patterns(&mut out, seed, n, 64),
+        "sparse" => patterns(&mut out, seed, n, 6),
+        "sparse5" => patterns(&mut out, seed, n, 5),
         "diagrams" => diagrams(&mut out, seed, n),
         _ => {
             eprintln!("unknown kind");
